@@ -57,12 +57,19 @@ def main():
         key = e0["key"]
         cls = "unclassified"
         for name, rx in classes:
-            if rx.search(key["Pattern"] + " " + key["API"] + " " + e0["msg"]):
+            if rx.search(" ".join([key["Harness"], key["Pattern"], key["API"], key.get("Extra", ""), e0["msg"]])):
                 cls = name
                 break
         hexw = " ".join("%s=%#x" % (n, v) for n, v in sorted(e0["model"].items()))
-        what = "%s %s pattern=%s L=%d alpha=%s mode=%d: %s (witness %s: %s) [%s]" % (
-            key["Harness"], key["API"], json.dumps(key["Pattern"]), key["L"], key.get("Alpha") or "full", key.get("Mode", 0),
+        ctx = ""
+        if key.get("Extra"):
+            ctx += " extra=%s" % json.dumps(key["Extra"])
+        if key.get("Pre") or key.get("Post"):
+            ctx += " window=%s+%s" % (json.dumps(key.get("Pre", "")), json.dumps(key.get("Post", "")))
+        if key.get("N"):
+            ctx += " n=%d" % key["N"]
+        what = "%s %s pattern=%s L=%d alpha=%s mode=%d%s: %s (witness %s: %s) [%s]" % (
+            key["Harness"], key["API"], json.dumps(key["Pattern"]), key["L"], key.get("Alpha") or "full", key.get("Mode", 0), ctx,
             e0["msg"], hexw, json.dumps(e0.get("snaps")), cls)
         ent = {"key": key, "class": cls, "what": what, "witness": e0["model"], "snaps": e0.get("snaps"), "failing_paths": len(pcs), "region": region}
         if e0.get("post"):
